@@ -9,7 +9,9 @@ if [ -n "$(git status --porcelain)" ]; then echo "repo working tree is not clean
 if git apply --check "$PATCH" 2>/dev/null; then git apply "$PATCH"
 elif git apply -3 "$PATCH" >/dev/null 2>&1 && ! grep -rq '^<<<<<<<' src precompile common 2>/dev/null; then git reset -q; echo "(patch applied with 3-way merge)"
 else git checkout -- . ; echo "patch does not apply: $PATCH"; exit 2; fi
-trap 'cd /repo && git checkout -- . && git clean -fdq -- src common precompile 2>/dev/null' EXIT
+# evidence / replays written while a change is applied are not evidence about /repo: keep the real ones aside
+EVBAK=$(mktemp -d /tmp/verif-evbak-XXXXXX); cp -a /verif/evidence/. "$EVBAK"/ 2>/dev/null
+trap 'cd /repo && git checkout -- . && git clean -fdq -- src common precompile 2>/dev/null; rm -rf /verif/evidence; mkdir -p /verif/evidence; cp -a "$EVBAK"/. /verif/evidence/; rm -rf "$EVBAK"' EXIT
 cd /verif
 for P in "$@"; do
   out=$(./check "$P" "$TIER" 2>&1); rc=$?
